@@ -292,6 +292,25 @@ println(b)
 """
 EXPECT2 = [("main.abra:5", "<main>")]
 
+# active calls whose call instruction is the FIRST instruction of its line / of its function (zero-argument calls)
+PROG3 = """fn ratio(total: int, parts: int) -> int {
+  total / parts
+}
+fn report() -> int {
+  ratio(100, 0)
+}
+fn run_checks() -> int {
+  report()
+}
+fn start() -> int {
+  let banner = "starting"
+  println(banner)
+  run_checks()
+}
+println(start())
+"""
+EXPECT3 = [("main.abra:2", "ratio"), ("main.abra:5", "report"), ("main.abra:8", "run_checks"), ("main.abra:13", "start"), ("main.abra:15", "<main>")]
+
 
 def traceback_of(out):
     tb = []
@@ -314,10 +333,11 @@ def replay(ob):
     import abra_cli
     info = {}
     bad = False
-    for name, prog, exp in (("nested", PROG, EXPECT), ("first_instruction_of_line", PROG2, EXPECT2)):
+    for name, prog, exp in (("nested", PROG, EXPECT), ("first_instruction_of_line", PROG2, EXPECT2), ("zero_argument_calls", PROG3, EXPECT3)):
         o, e, rc = abra_cli.run_program(prog)
         tb = traceback_of(o + e)
         info[name] = dict(program=prog, output=(o + e)[:800], traceback=tb, expected=exp)
         if tb != exp:
             bad = True
-    return bad, info
+    # the three programs cannot establish that the real code is right: no mismatch = no failing input found
+    return (True if bad else None), info
